@@ -18,7 +18,7 @@ import (
 
 func init() { registerPart("C03", "TestC03", jsonReplay(checkC03)) }
 
-var varNameRe = regexp.MustCompile(`\{[a-z][0-9]+`)
+var varNameRe = regexp.MustCompile(`\{[a-zA-Z]+[0-9]+`)
 
 // restrictToC03Domain removes, by construction, what the statement excludes: roots with the
 // same literal/variable shape, same-method routes whose templates differ only in variable
